@@ -624,8 +624,14 @@ def _sp_codecs_lookup(f, a, k):
 
 import codecs as _codecs_mod
 
+
+def _sp_incdec(f, a, k):
+    from .codecs_model import incremental_decoder_factory
+    return incremental_decoder_factory(*a, **k)
+
+
 SPECIAL = {
-    _codecs_mod.lookup: _sp_codecs_lookup,
+    _codecs_mod.lookup: _sp_codecs_lookup, _codecs_mod.getincrementaldecoder: _sp_incdec,
     _io.BytesIO: _sp_bytesio, int: _sp_int, str: _sp_str, bytes: _sp_bytes, bool: _sp_bool,
     dict: _sp_dict, list: _sp_container, tuple: _sp_container, set: _sp_container,
     frozenset: _sp_container,
